@@ -282,11 +282,12 @@ Present(c, part) == IF part = "body" THEN c.hasBody ELSE c.parts[part].t # "abse
 (* ---- C03: value level ---- *)
 RestrictTo(s, keys) == [k \in (DOMAIN s \cap keys) \cup {"sk"} |-> s[k]]
 RECURSIVE Branches(_, _, _)
-Branches(defs, s, n) ==          \* sequence of the sub-schemas a description may talk about: through $ref and combinator branches
-  LET d == Deref(defs, s) IN
+Branches(defs, s, n) ==          \* sequence of the sub-schemas a description may talk about: through $ref and combinator branches;
+  LET d == Deref(defs, s) IN     \* `nullable` is read as the implicit alternative {type: null}
   IF n = 0 \/ d.sk # "schema" THEN <<d>>
-  ELSE <<d>> \o FlattenSeq([j \in 1..3 |-> LET k == <<"allOf", "anyOf", "oneOf">>[j] IN
-                                            IF Has(d, k) THEN FlattenSeq([i \in DOMAIN d[k] |-> Branches(defs, d[k][i], n - 1)]) ELSE <<>>])
+  ELSE <<d>> \o (IF Fld(d, "nullable", FALSE) THEN <<[sk |-> "schema", type |-> <<"null">>]>> ELSE <<>>)
+       \o FlattenSeq([j \in 1..3 |-> LET k == <<"allOf", "anyOf", "oneOf">>[j] IN
+                                     IF Has(d, k) THEN FlattenSeq([i \in DOMAIN d[k] |-> Branches(defs, d[k][i], n - 1)]) ELSE <<>>])
 KwKeys(kw) == CASE kw = "type" -> {"type", "nullable"} [] kw = "enum" -> {"enum", "const"}
                 [] kw = "maximum" -> {"maximum", "exclMax", "xMax"} [] kw = "minimum" -> {"minimum", "exclMin", "xMin"}
                 [] OTHER -> {kw}
@@ -302,7 +303,11 @@ ViolatesAs(defs, s, steps, v, dia) ==    \* does v violate s the way the (parsed
   ELSE LET st == Head(steps)
            bs == Branches(defs, s, 3)
        IN IF v.t = "opaque" \/ st.k = "unknown" THEN "U"
-          ELSE IF st.k = "kw" THEN Any3([j \in DOMAIN bs |-> KwRejects(defs, bs[j], st.kw, st.name, v, dia)])
+          ELSE IF st.k = "kw" THEN
+                 LET r == Any3([j \in DOMAIN bs |-> KwRejects(defs, bs[j], st.kw, st.name, v, dia)]) IN
+                 (* several allOf members may legitimately be merged into one equivalent schema before values are derived,
+                    so the keyword named need not occur literally: undecided rather than a mismatch *)
+                 IF r = "F" /\ \E j \in DOMAIN bs : bs[j].sk = "schema" /\ Has(bs[j], "allOf") /\ Len(bs[j].allOf) > 1 THEN "U" ELSE r
           ELSE IF st.k = "prop" THEN
                  IF v.t # "obj" \/ ~ObjHas(v, st.name) THEN "F"
                  ELSE Any3([j \in {j \in DOMAIN bs : bs[j].sk = "schema" /\ PropIdx(bs[j], st.name) # {}} |->
